@@ -1,6 +1,7 @@
 package an
 
 import (
+	"fmt"
 	"strings"
 
 	"golang.org/x/tools/go/ssa"
@@ -72,6 +73,32 @@ func runC03(p *Prog, r *Report) {
 		r.Check(len(inst) == 1, R, "top-bit-set", inst.Pos(p), "reqID = id | 0x80000000", "the request id is installed without the top bit (a device could not tell it from a routing word)")
 		r.Describe("C03.12/id-end-marker", "every request id put on the wire has the top bit set: it is the word that ends the backtrace for REP, devices and the reply path")
 		r.Check(len(inst) == 1, "C03.12/id-end-marker", "req.SendMsg/top-bit-set-per-id", inst.Pos(p), "id | 0x80000000 for every request", "the request id is not marked with the top bit each time it is generated (a marker applied to the counter's seed is lost when the counter wraps): REP and devices then take payload words for routing data")
+		// ... and is drawn from the one counter all contexts of the socket share: ids are what
+		// tells the outstanding requests of a socket apart, so two counters (one per context,
+		// blocks of ids) can hand the same id to two requests that are outstanding together
+		{
+			R2 := "C03.15/one-id-counter"
+			r.Describe(R2, "every request id is the next value of the single counter kept in the socket (atomic.AddUint32(&s.nextID, 1)), and nothing else writes that counter: the ids of requests that are outstanding together differ")
+			ad := sm.Ev("call", "atomic.AddUint32")
+			okSrc := len(ad) == 1 && len(ad[0].Args) == 2 && strings.HasSuffix(ad[0].Args[0], ".s.nextID") && ad[0].Args[1] == "1"
+			okUse := len(inst) == 1 && okSrc && strings.Contains(inst[0].Args[0], "atomic.AddUint32("+ad[0].Args[0]+",1)")
+			r.Check(okSrc && okUse, R2, "req.SendMsg/id-from-socket-counter", ad.Pos(p), "id = AddUint32(&s.nextID, 1) | marker", "the request id is not the next value of the socket-wide counter ("+argsOf(ad)+"): contexts that draw ids from counters of their own can give two outstanding requests the same id, and the reply to one is delivered as the reply to the other")
+			w := p.PostPubWritersOf("protocol/req.socket.nextID")
+			q.OnlyIn(R2, "writers-of-socket.nextID", w, []string{"protocol/req.(*context).SendMsg"}, nil)
+			// the only other use of the field's address is that AddUint32
+			n := 0
+			for _, fn := range p.Funcs {
+				if rel, ok := p.FuncRel(fn); !ok || rel != "protocol/req" || strings.HasSuffix(p.Fset.Position(fn.Pos()).Filename, "_test.go") {
+					continue
+				}
+				for _, e := range p.Events(fn) {
+					if e.Kind == "call" && strings.HasPrefix(e.What, "atomic.") && len(e.Args) > 0 && strings.HasSuffix(e.Args[0], ".nextID") {
+						n++
+					}
+				}
+			}
+			r.Check(n == 1, R2, "one-draw-site", sm.Pos(), "ids are drawn at one place", fmt.Sprintf("the id counter is advanced at %d places (expected the one in SendMsg): ids handed out elsewhere (blocks reserved per context) are not known to be distinct from the ones SendMsg draws", n))
+		}
 		cn := sm.Ev("call", "req.(*context).cancel")
 		r.Check(len(inst) == 1 && len(cn) >= 1 && inst.DominatedBy(cn), R, "cancel-before-new-id", inst.Pos(p), "the previous request is cancelled before the new id is installed", "a new Send installs its id without first cancelling the previous request: the late reply to the old request can still be delivered")
 		hd := sm.Ev("store", "arg1.Header")
